@@ -117,6 +117,10 @@ let eval fields =
     let rec go s k = if k = 0 then [] else let (s', r) = m_idgen_next s in hex_of_n r :: go s' (k - 1) in
     rs, go (n_of_hex st) k
   | ["I"; last; id; r] -> [r], [b01 (m_is_new (n_of_hex last) (n_of_hex id))]
+  | ["U"; last; id; "X"] ->
+    (* the harness could not reach this state through the API, or the API
+       path and the direct path disagreed *)
+    let (nl', r') = m_update (n_of_hex last) (n_of_hex id) in ["X"], [hex_of_n nl'; b01 r']
   | ["U"; last; id; nl; r] ->
     let (nl', r') = m_update (n_of_hex last) (n_of_hex id) in [nl; r], [hex_of_n nl'; b01 r']
   | ["A"; kind; payload; id; ok] ->
